@@ -6,12 +6,12 @@ import importlib
 def main() -> int:
     n = 0
     for modname in ("mc.ref.channels", "mc.ref.c06_maps", "mc.ref.games", "mc.ref.metrics", "mc.ref.entanglement", "mc.ref.predicates",
-                    "mc.ref.sdp_cert", "mc.ref.c08_xor"):
+                    "mc.ref.sdp_cert", "mc.ref.c08_xor", "mc.ref.c12_ppt", "mc.ref.c09_games", "mc.ref.c09_sdp"):
         try:
             mod = importlib.import_module(modname)
         except ImportError:
             continue
-        fn = getattr(mod, "selfcheck", None)
+        fn = getattr(mod, "selfcheck", None) or getattr(mod, "selftest", None)
         if fn is not None:
             n += int(fn() or 0)
     return n
